@@ -386,7 +386,7 @@ PROPS["C01"] = {
     "bounds": {"append": "file length and last valid offset symbolic (<= 2^48)", "records": "fixed-size record variants, all field values"},
     "stubs": ["file metadata/seek/write modelled as a position counter"],
     "assumptions": [],
-    "outside_claim": ["fsync ordering, page-store durability, compaction/close I/O order, multi-round crash histories, engine-level recovery"],
+    "outside_claim": ["page-store durability, fsync and I/O order of compaction and close, multi-round crash histories, engine-level recovery"],
     "level_text": "Partial (log layer only): path-wise symbolic execution (z3) of Wal::append — an acknowledged record must be written "
                   "where recovery reads next — and Kani/CBMC round trips of the fixed-size log records. Known finding: append position "
                   "after a tolerated garbage tail.",
